@@ -197,7 +197,14 @@ func (sc *Scenario) polyFile() string {
 	if sc.OtherField {
 		fmt.Fprintf(&b, "%s %s %s %d %d %d other\n", "77777", "998", "OTHERF", 10, 30, 0)
 	}
-	fmt.Fprintf(&b, "%s %s %s %d %d %d generated\n", sc.PlotNr, sc.Soil.ID, sc.Field, sc.GRHI, sc.GRLO, onoff(sc.IrrFlag))
+	sid, fid := sc.Soil.ID, sc.Field
+	if sc.PolySID != "" {
+		sid = sc.PolySID
+	}
+	if sc.PolyFieldID != "" {
+		fid = sc.PolyFieldID
+	}
+	fmt.Fprintf(&b, "%s %s %s %d %d %d generated\n", sc.PlotNr, sid, fid, sc.GRHI, sc.GRLO, onoff(sc.IrrFlag))
 	b.WriteString("end\n")
 	return b.String()
 }
